@@ -19,6 +19,10 @@ CHECKS = {
             "Generated histories over all 16 public entry points with valid, wrong-kind, hostile and stale arguments in any order; every call must return (panic hook + catch_unwind; aborts and hangs observed through worker processes), and after errors a probe expression must give exactly the outputs of a fresh session in which the accepted state-changing calls were replayed. A separate nesting-depth class runs in child processes.",
             "Recovery is asserted only for sessions that began with a successful set_rules_dir (documented precondition); panics are reported for every order. Debug assertions and overflow checks are on. Hangs are counted, not reported as violations unless they fall in a known input class.",
             "DESIGN.md 3/C08"),
+    "C18": ("exhaustive enumeration of the finite mapping table plus property-based testing of multi-character tokens, differential against a reference table built from Unicode Character Database names",
+            "Every mathvariant value x every key of the mapping x mi/mn/mo/mtext is enumerated (exhaustive) and compared with the character Unicode names MATHEMATICAL <STYLE> <LETTER> (incl. the Letterlike-Symbols holes) or the documented fall-back; generated multi-character tokens extend this; unassigned code points and per-style injectivity are checked.",
+            "Trusts Python's unicodedata (UCD 14) from which harness/data/mathvariant_expected.json was generated, and the encoding of the documented fall-backs in c18.rs::allowed.",
+            "DESIGN.md 3/C18"),
 }
 
 NOT_YET = "check not built yet in this round (machinery in progress; see DESIGN.md section 7 build order)"
